@@ -32,7 +32,22 @@ Defs == <<
   \* call's handler did (completed, or raised another error)
   Func("F11", <<"A">>, <<PutS(<<Str("["), Item(Call("error", <<>>), 1), Str("]")>>),
                          If(Bin(">", V("A"), I(0)), <<Begin(<<RaiseS("E2")>>, <<When("E2", <<If(Bin(">", V("A"), I(1)), <<RaiseS("E3")>>, <<PutS(<<Str("h")>>)>>)>>)>>)>>, <<>>),
-                         PutS(<<Str("["), Item(Call("error", <<>>), 1), Str("]")>>), Return(V("A"))>>)
+                         PutS(<<Str("["), Item(Call("error", <<>>), 1), Str("]")>>), Return(V("A"))>>),
+  \* a loop whose body holds a protected block; the handler raises another error, which leaves the loop and the function:
+  \* the next call starts the loop afresh
+  Func("F12", <<"A">>, <<Let("S", I(0)),
+                         For("K", I(1), I(3), NoExpr, "auto", <<Begin(<<If(Bin("==", V("K"), V("A")), <<RaiseS("E1")>>, <<>>)>>, <<When("E1", <<RaiseS("E2")>>)>>),
+                                                                 Let("S", Bin("+", V("S"), V("K")))>>),
+                         Return(V("S"))>>),
+  Func("F14", <<"A">>, <<Let("S", I(0)), Let("Q", Call("tab", <<I(3), I(1)>>)),
+                         Forall("E", V("Q"), "auto", <<Begin(<<If(Bin("==", V("S"), V("A")), <<RaiseS("E1")>>, <<>>)>>, <<When("E1", <<RaiseS("E2")>>)>>),
+                                                        Let("S", Bin("+", V("S"), V("E")))>>),
+                         Return(V("S"))>>),
+  \* a traversal of a computed table left by return: the next call traverses its own table from the start
+  Func("F13", <<"A">>, <<Forall("E", Call("tab", <<I(2), V("A")>>), "auto", <<Return(V("E"))>>), Return(I(-1))>>),
+  Func("F15", <<"A">>, <<Forall("E", Mem(Call("tab", <<I(1), V("A")>>), "concat", <<Bin("+", V("A"), I(1))>>), "desc",
+                                <<If(Bin(">", V("E"), V("A")), <<Return(V("E"))>>, <<>>)>>), Return(I(-1))>>),
+  Func("F16", <<"A">>, <<For("K", V("A"), Bin("+", V("A"), I(2)), NoExpr, "auto", <<While(B(TRUE), <<Return(V("K"))>>)>>), Return(I(-1))>>)
 >>
 
 CallPool == <<
@@ -40,15 +55,23 @@ CallPool == <<
   UCall("F3", <<I(2)>>), UCall("F4", <<I(3)>>), UCall("F4", <<I(2)>>), UCall("F6", <<I(1)>>), UCall("F6", <<I(1), I(2)>>),
   UCall("F7", <<V("TT")>>), UCall("F8", <<I(1)>>), UCall("F8", <<I(0)>>), UCall("F8", <<I(2)>>),
   UCall("F9", <<I(3)>>), UCall("F9", <<I(1)>>), UCall("F10", <<I(-1)>>), UCall("F10", <<I(1)>>),
-  UCall("F11", <<I(0)>>), UCall("F11", <<I(1)>>), UCall("F11", <<I(2)>>)
+  UCall("F11", <<I(0)>>), UCall("F11", <<I(1)>>), UCall("F11", <<I(2)>>),
+  UCall("F12", <<I(2)>>), UCall("F12", <<I(0)>>), UCall("F14", <<I(1)>>), UCall("F14", <<I(9)>>),
+  UCall("F13", <<I(3)>>), UCall("F13", <<I(5)>>), UCall("F15", <<I(3)>>), UCall("F15", <<I(7)>>), UCall("F16", <<I(1)>>), UCall("F16", <<I(5)>>)
 >>
 
 Guarded(c) == Begin(<<Let("R", c), PrintS(<<Str("="), V("R")>>)>>, <<When("OTHERS", <<PrintS(<<Str("err "), Item(Call("error", <<>>), 1)>>)>>)>>)
 Prelude == <<Let("TT", Call("tab", <<I(2), I(7)>>)), Let("G", I(1)), Let("L", Str("caller")), Let("W", I(3))>>
 
-RECURSIVE Hist(_)
-Hist(n) == IF n = 0 THEN {<<>>} ELSE {Append(h, c) : h \in Hist(n - 1), c \in DOMAIN CallPool}
-Histories == UNION {Hist(n) : n \in 0..H}
+\* the first 17 calls are crossed with each other (histories of <= H calls, every call observed afterwards); the later ones
+\* exercise one function each: every history of <= H + 1 calls of the same function, every call of it observed afterwards
+Crossed == 1..17
+Groups == {18..20, 21..22, 23..24, 25..26, 27..28, 29..30}
+RECURSIVE HistOver(_, _)
+HistOver(n, pool) == IF n = 0 THEN {<<>>} ELSE {Append(h, c) : h \in HistOver(n - 1, pool), c \in pool}
+Histories == UNION {HistOver(n, Crossed) : n \in 0..H}
+HistObs == {<<h, o>> : h \in Histories, o \in Crossed}
+           \cup UNION {{<<h, o>> : h \in UNION {HistOver(n, g) : n \in 1..(H + 1)}, o \in g} : g \in Groups}
 
 HProg(h, obs) == Defs \o Prelude \o [j \in DOMAIN h |-> Guarded(CallPool[h[j]])] \o <<PrintS(<<Str("--")>>), Guarded(CallPool[obs])>>
 
@@ -92,7 +115,7 @@ Rejects == {"H = 5;\nfunction FX(A) return undefined is begin return H; end;",
             "H = 5;\nfunction FX(A) return undefined is begin H2 = H + A; return H2; end;"}
 
 VARIABLE p
-Init == p \in {[kind |-> "hist", m |-> HProg(h, o)] : h \in Histories, o \in DOMAIN CallPool}
+Init == p \in {[kind |-> "hist", m |-> HProg(q[1], q[2])] : q \in HistObs}
               \cup {[kind |-> "loop", m |-> x] : x \in LoopProgs} \cup {[kind |-> "rec", m |-> x] : x \in RecProgs \cup DeepProgs}
               \cup {[kind |-> "nest", m |-> x] : x \in NestProgs \cup NullArgProgs}
               \cup {[kind |-> "reject", m |-> <<>>, t |-> x] : x \in Rejects}
